@@ -77,11 +77,13 @@ open C13D in
 def dispatchC13 : List Str → Option (List Str)
   | cmd :: args =>
     if cmd == "c13.all".toList then
-      -- c13.all <variant: asis|fixed> <order> ent*  : the whole GraphManager run
+      -- c13.all <variant: asis|fixed, optionally followed by +b> <order> ent*  : the whole GraphManager run
+      -- (`fixed`: CallGraph counts callees that are roots once; `+b`: bindings to hidden procedures are roots)
       match args with
       | variant :: order :: ents =>
         let tab := ents.map parseEnt
-        let r := graphAll (variant == "fixed".toList) tab (natList order)
+        let r := graphAll (variant == "fixed".toList || variant == "fixed+b".toList)
+          (variant == "asis+b".toList || variant == "fixed+b".toList) tab (natList order)
         if !r.ok then some ["fuel".toList]
         else
           some (["ok".toList,
